@@ -2,6 +2,8 @@ package main
 
 import (
 	"fmt"
+	"os"
+	"path/filepath"
 	"strings"
 
 	"github.com/mmcloughlin/avo/operand"
@@ -29,41 +31,55 @@ func c20Call(r reg.Register, m string) (res reg.Register, avail, panicked bool) 
 			res, avail, panicked = nil, true, true
 		}
 	}()
+	res, avail = c20CallRaw(r, m)
+	if !avail {
+		return nil, false, false
+	}
+	// "or fails": a nil result (or a wrapper around nil, whose accessors panic) is
+	// the same outcome as the panic of the typed wrappers
+	if res == nil {
+		return nil, true, true
+	}
+	_, _, _, _, _ = res.ID(), res.Mask(), res.Size(), res.Asm(), res.Kind()
+	return res, true, false
+}
+
+func c20CallRaw(r reg.Register, m string) (res reg.Register, avail bool) {
 	switch m {
 	case "As8", "As8L", "As8H", "As16", "As32", "As64":
 		g, ok := r.(reg.GP)
 		if !ok {
-			return nil, false, false
+			return nil, false
 		}
 		switch m {
 		case "As8":
-			return g.As8(), true, false
+			return g.As8(), true
 		case "As8L":
-			return g.As8L(), true, false
+			return g.As8L(), true
 		case "As8H":
-			return g.As8H(), true, false
+			return g.As8H(), true
 		case "As16":
-			return g.As16(), true, false
+			return g.As16(), true
 		case "As32":
-			return g.As32(), true, false
+			return g.As32(), true
 		default:
-			return g.As64(), true, false
+			return g.As64(), true
 		}
 	case "AsX", "AsY", "AsZ":
 		v, ok := r.(reg.Vec)
 		if !ok {
-			return nil, false, false
+			return nil, false
 		}
 		switch m {
 		case "AsX":
-			return v.AsX(), true, false
+			return v.AsX(), true
 		case "AsY":
-			return v.AsY(), true, false
+			return v.AsY(), true
 		default:
-			return v.AsZ(), true, false
+			return v.AsZ(), true
 		}
 	}
-	return nil, false, false
+	return nil, false
 }
 
 func c20Methods(r reg.Register) []string {
@@ -101,6 +117,34 @@ func c20Alloc(c *reg.Collection, ctor string) reg.Virtual {
 		return c.K()
 	}
 	panic("unknown ctor " + ctor)
+}
+
+// c20AllocSafe: an allocation that panics (e.g. a loud overflow check) or hands
+// out nil is the outcome `failed`, never a crash of the harness.
+func c20AllocSafe(c *reg.Collection, ctor string) (v reg.Virtual, ok bool) {
+	defer func() {
+		if e := recover(); e != nil {
+			v, ok = nil, false
+		}
+	}()
+	v = c20Alloc(c, ctor)
+	if v == nil {
+		return nil, false
+	}
+	_, _, _, _, _ = v.ID(), v.Mask(), v.Size(), v.Kind(), v.VirtualIndex()
+	return v, true
+}
+
+// c20CtorKind: the kind a named Collection constructor allocates from (request
+// bookkeeping only; what the constructor returns is judged by accept-ctor).
+func c20CtorKind(ctor string) reg.Kind {
+	switch ctor {
+	case "XMM", "YMM", "ZMM":
+		return reg.KindVector
+	case "K":
+		return reg.KindOpmask
+	}
+	return reg.KindGP
 }
 
 // c20Bits: IsRegister IsPseudo IsR8 IsR16 IsR32 IsR64 IsXMM IsYMM IsZMM IsK IsAL IsCL IsAX IsEAX IsRAX IsXMM0
@@ -173,6 +217,93 @@ func c20VasReq(v reg.Virtual) string {
 	return fmt.Sprintf("vas %d %d %d", uint8(v.Kind()), uint16(v.VirtualIndex()), v.Mask())
 }
 
+// c20VarReq: what the exported variable reports, as an acceptor request.
+// c20VirtOf rebuilds a virtual register with the given kind, index and mask
+// through the public API (GP / vector registers through a Collection, so that
+// they carry the conversion methods); nil when that is not possible.
+func c20VirtOf(kind, idx, mask int) (v reg.Virtual) {
+	defer func() {
+		if e := recover(); e != nil {
+			v = nil
+		}
+	}()
+	if kind < 0 || kind > 255 || idx < 0 || idx > 65535 || mask < 0 || mask > 65535 {
+		return nil
+	}
+	k, s := reg.Kind(kind), reg.Spec(mask)
+	c := reg.NewCollection()
+	for n := 0; n < 70000; n++ {
+		switch k {
+		case reg.KindGP:
+			v = c.GP(s)
+		case reg.KindVector:
+			v = c.Vec(s)
+		default:
+			v = c.VirtualRegister(k, s)
+		}
+		if v == nil {
+			return nil
+		}
+		if int(v.VirtualIndex()) == idx {
+			if int(v.Kind()) != kind || int(v.Mask()) != mask {
+				return nil
+			}
+			return v
+		}
+	}
+	return nil
+}
+
+func c20VarReq(v c20Var) string {
+	if v.Status != "phys" {
+		return fmt.Sprintf("accept-var %s %s", v.Name, v.Status)
+	}
+	return fmt.Sprintf("accept-var %s %d %s %d %d %d %d %d %d", v.Name, v.Row, c20Tok(v.Asm), v.Kind, v.Idx, v.Mask, v.Size, v.Info, v.ID)
+}
+
+// c20EmitVlook: virtual register v allocated to the physical register with p's
+// id: reg.Allocation.LookupRegister / LookupDefault / LookupRegisterDefault.
+func c20EmitVlook(emit func(kind, req, resp string), v reg.Virtual, p reg.Physical) {
+	var res reg.Physical
+	var dflt reg.ID
+	var rd reg.Register
+	failed := func() (failed bool) {
+		defer func() {
+			if e := recover(); e != nil {
+				failed = true
+			}
+		}()
+		a := reg.NewEmptyAllocation()
+		a[v.ID()] = p.ID()
+		res = a.LookupRegister(v)
+		dflt = a.LookupDefault(v.ID())
+		rd = a.LookupRegisterDefault(v)
+		if res != nil {
+			_, _, _, _ = res.ID(), res.Mask(), res.Size(), res.Asm()
+		}
+		if rd != nil {
+			_, _ = rd.ID(), rd.Mask()
+		}
+		return false
+	}()
+	req := fmt.Sprintf("%d %d %d %d", uint8(v.Kind()), uint16(v.VirtualIndex()), v.Mask(), uint32(p.ID()))
+	if failed {
+		emit("vlook", "vlook "+req, "panic")
+		emit("accept-vlook", fmt.Sprintf("accept-vlook %d %d %d %d panic", uint8(p.Kind()), uint16(p.PhysicalIndex()), uint32(p.ID()), v.Mask()), "ok")
+		return
+	}
+	rds := "nil"
+	if rd != nil {
+		rds = fmt.Sprintf("%d:%d", uint32(rd.ID()), rd.Mask())
+	}
+	emit("vlook", "vlook "+req, fmt.Sprintf("%s %d %s", c20LookupResp(res), uint32(dflt), rds))
+	acc := "panic"
+	if res != nil {
+		acc = c20Res(res, false)
+	}
+	emit("accept-vlook", fmt.Sprintf("accept-vlook %d %d %d %d %s", uint8(p.Kind()), uint16(p.PhysicalIndex()), uint32(p.ID()), v.Mask(), acc), "ok")
+}
+
 func init() {
 	register("c20", "register model: views, conversions, lookups, ids, specs, classification (exhaustive) + collections", func(args []string) error {
 		f := newStdFlags("c20")
@@ -208,7 +339,10 @@ func init() {
 				return err
 			}
 			for _, l := range lines {
-				c20Replay(all, strings.Fields(l), emit)
+				func() {
+					defer func() { recover() }() // a line that cannot be replayed on the current tree is skipped, not a crash
+					c20Replay(all, *f.repo, filepath.Dir(*f.ops), strings.Fields(l), emit)
+				}()
 			}
 			return writeJSON(*f.stats, map[string]any{"replayed_lines": len(lines), "requests_by_kind": stats})
 		}
@@ -275,9 +409,12 @@ func init() {
 					emit("accept-lookup", fmt.Sprintf("accept-lookup %d %d %d %d %s", uint8(p.Kind()), uint16(p.PhysicalIndex()), uint32(p.ID()), uint16(s), acc), "ok")
 				}
 			}
-			// the same id with the virtual flag, and with junk in the flag byte
-			for _, id := range []reg.ID{p.ID() | 1, p.ID() | 2, p.ID() | 0x80} {
-				emit("lookupid", fmt.Sprintf("lookupid %d %d", uint32(id), uint16(reg.S64)), c20LookupResp(reg.LookupID(id, reg.S64)))
+			// the same id with the virtual flag (exact), and with junk in the flag byte: such a value is not an id avo
+			// ever builds and the property does not pin what LookupID does with it — nil, or the register that the
+			// kind and index fields name (acceptor), never another one
+			emit("lookupid", fmt.Sprintf("lookupid %d %d", uint32(p.ID()|1), uint16(reg.S64)), c20LookupResp(reg.LookupID(p.ID()|1, reg.S64)))
+			for _, id := range []reg.ID{p.ID() | 2, p.ID() | 0x80, p.ID() | 0x81} {
+				emit("accept-lookup-junk", fmt.Sprintf("accept-lookup-junk %d %d %s", uint32(id), uint16(reg.S64), c20LookupResp(reg.LookupID(id, reg.S64))), "ok")
 			}
 			// a virtual id never resolves to a physical register
 			for _, s := range specs[:9] {
@@ -304,7 +441,11 @@ func init() {
 			if r.chance(1, 6) {
 				s = reg.Spec(r.u64())
 			}
-			emit("lookupid", fmt.Sprintf("lookupid %d %d", uint32(id), uint16(s)), c20LookupResp(reg.LookupID(id, s)))
+			if uint32(id)&0xff <= 1 {
+				emit("lookupid", fmt.Sprintf("lookupid %d %d", uint32(id), uint16(s)), c20LookupResp(reg.LookupID(id, s)))
+			} else {
+				emit("accept-lookup-junk", fmt.Sprintf("accept-lookup-junk %d %d %s", uint32(id), uint16(s), c20LookupResp(reg.LookupID(id, s))), "ok")
+			}
 			k, idx := reg.Kind(r.intn(6)), reg.Index(r.intn(40))
 			if r.chance(1, 10) {
 				k, idx = reg.Kind(r.u64()), reg.Index(r.u64())
@@ -338,29 +479,132 @@ func init() {
 			emit("spec", fmt.Sprintf("spec %d", s), fmt.Sprintf("%d %d", reg.Spec(s).Size(), reg.Spec(s).Mask()))
 		}
 		// ---- 5. virtual registers: every constructor x every conversion, at several counter values
+		allocFail := func(kind reg.Kind, n int) {
+			// an allocation that fails (panics / nil) is acceptable only once the ids of the kind are exhausted
+			emit("accept-alloc-fail", fmt.Sprintf("accept-alloc-fail %d %d", uint8(kind), n), "ok")
+		}
 		virtAt := func(ctor string, nprev int) reg.Virtual {
 			c := reg.NewCollection()
 			for i := 0; i < nprev; i++ {
-				c20Alloc(c, ctor)
+				if _, ok := c20AllocSafe(c, ctor); !ok {
+					allocFail(c20CtorKind(ctor), i)
+					return nil
+				}
 			}
-			return c20Alloc(c, ctor)
+			v, ok := c20AllocSafe(c, ctor)
+			if !ok {
+				allocFail(c20CtorKind(ctor), nprev)
+				return nil
+			}
+			return v
+		}
+		vconv := func(v reg.Virtual) {
+			emit("vas", c20VasReq(v)+" 0", c20Virt(v)+":"+c20Bits(v))
+			emit("accept-vclass", fmt.Sprintf("accept-vclass %d %d %s", uint8(v.Kind()), v.Mask(), c20Bits(v)), "ok")
+			for _, m := range c20Methods(v) {
+				res, _, panicked := c20Call(v, m)
+				step := "panic"
+				if !panicked {
+					step = c20Virt(res) + ":" + c20Bits(res)
+					emit("accept-vclass", fmt.Sprintf("accept-vclass %d %d %s", uint8(res.Kind()), res.Mask(), c20Bits(res)), "ok")
+				}
+				emit("vas", c20VasReq(v)+" 1 "+m, c20Virt(v)+":"+c20Bits(v)+" "+step)
+				emit("accept-vas", fmt.Sprintf("accept-vas %d %s %s", uint32(v.ID()), m, c20Res(res, panicked)), "ok")
+			}
 		}
 		for _, ctor := range c20Ctors {
 			for _, nprev := range []int{0, 1, 255, 256, 65535} {
 				v := virtAt(ctor, nprev)
-				emit("accept-ctor", fmt.Sprintf("accept-ctor %s %d %d %d %d", ctor, uint8(v.Kind()), v.Mask(), v.Size(), uint32(v.ID())), "ok")
-				emit("vas", c20VasReq(v)+" 0", c20Virt(v)+":"+c20Bits(v))
-				emit("accept-vclass", fmt.Sprintf("accept-vclass %d %d %s", uint8(v.Kind()), v.Mask(), c20Bits(v)), "ok")
-				for _, m := range c20Methods(v) {
-					res, _, panicked := c20Call(v, m)
-					step := "panic"
-					if !panicked {
-						step = c20Virt(res) + ":" + c20Bits(res)
-						emit("accept-vclass", fmt.Sprintf("accept-vclass %d %d %s", uint8(res.Kind()), res.Mask(), c20Bits(res)), "ok")
-					}
-					emit("vas", c20VasReq(v)+" 1 "+m, c20Virt(v)+":"+c20Bits(v)+" "+step)
-					emit("accept-vas", fmt.Sprintf("accept-vas %d %s %s", uint32(v.ID()), m, c20Res(res, panicked)), "ok")
+				if v == nil {
+					continue
 				}
+				emit("accept-ctor", fmt.Sprintf("accept-ctor %s %d %d %d %d", ctor, uint8(v.Kind()), v.Mask(), v.Size(), uint32(v.ID())), "ok")
+				vconv(v)
+			}
+		}
+		// ---- 5b. the entry points that take the kind / width as ARGUMENTS: reg.NewVirtual, Family.Virtual,
+		// Collection.VirtualRegister, Collection.GP(s), Collection.Vec(s) — every kind 0..4 x 18 spec values (grid) and random
+		// arguments.  Exact: `vas` (the register reports the id of its kind and index, the mask asked for, Spec.Size).
+		// Acceptor accept-vnew: a virtual register of the kind and width asked for, or failure — and failure exactly
+		// when no register of that kind has such a view in hardware.
+		vnew := func(entry string, k reg.Kind, s reg.Spec, idx int, get func() reg.Virtual) {
+			v, ok := func() (v reg.Virtual, ok bool) {
+				defer func() {
+					if e := recover(); e != nil {
+						v, ok = nil, false
+					}
+				}()
+				v = get()
+				if v == nil {
+					return nil, false
+				}
+				_, _, _, _, _ = v.ID(), v.Mask(), v.Size(), v.Kind(), v.VirtualIndex()
+				return v, true
+			}()
+			is := "-"
+			if idx >= 0 {
+				is = fmt.Sprint(idx)
+			}
+			res := "panic"
+			if ok {
+				res = fmt.Sprintf("%d %d %d %d", uint32(v.ID()), v.Mask(), v.Size(), uint8(v.Kind()))
+			}
+			emit("accept-vnew", fmt.Sprintf("accept-vnew %s %d %d %s %s", entry, uint8(k), uint16(s), is, res), "ok")
+			if ok {
+				if idx >= 0 { // the index is an argument: everything the register reports is pinned
+					emit("vnew", fmt.Sprintf("vnew %d %d %d", uint8(k), idx, uint16(s)), c20Virt(v)+":"+c20Bits(v))
+				}
+				vconv(v)
+			}
+		}
+		vnewAll := func(k reg.Kind, s reg.Spec, idx reg.Index) {
+			vnew("NewVirtual", k, s, int(idx), func() reg.Virtual { return reg.NewVirtual(idx, k, s) })
+			if f := reg.FamilyOfKind(k); f != nil {
+				vnew("Family.Virtual", k, s, int(idx), func() reg.Virtual { return f.Virtual(idx, s) })
+			}
+			vnew("VirtualRegister", k, s, -1, func() reg.Virtual { return reg.NewCollection().VirtualRegister(k, s) })
+			if k == reg.KindGP {
+				vnew("GP", k, s, -1, func() reg.Virtual { return reg.NewCollection().GP(s) })
+			}
+			if k == reg.KindVector {
+				vnew("Vec", k, s, -1, func() reg.Virtual { return reg.NewCollection().Vec(s) })
+			}
+		}
+		for k := 0; k <= 4; k++ {
+			for i, s := range specs {
+				vnewAll(reg.Kind(k), s, reg.Index([]int{0, 7, 65535}[i%3]))
+			}
+		}
+		for n := 0; n < *f.n/4; n++ {
+			k, s, idx := reg.Kind(r.intn(5)), pick(r, specs), reg.Index(r.intn(40))
+			if r.chance(1, 6) {
+				s = reg.Spec(r.u64())
+			}
+			if r.chance(1, 10) {
+				k, idx = reg.Kind(r.u64()), reg.Index(r.u64())
+			}
+			vnewAll(k, s, idx)
+		}
+		// ---- 5c. virtual -> physical: the view of the allocated register (reg.Allocation.LookupRegister / LookupDefault /
+		// LookupRegisterDefault, which BindRegisters uses): every virtual constructor x every physical id (all kinds, so
+		// also the ill-kinded allocations), under recover
+		physIDs := []reg.Physical{}
+		{
+			seen := map[reg.ID]bool{}
+			for _, p := range all {
+				if p.Kind() != reg.KindPseudo && !seen[p.ID()] {
+					seen[p.ID()] = true
+					physIDs = append(physIDs, p)
+				}
+			}
+		}
+		for _, ctor := range c20Ctors {
+			v := virtAt(ctor, 3)
+			if v == nil {
+				continue
+			}
+			for _, p := range physIDs {
+				c20EmitVlook(emit, v, p)
 			}
 		}
 		// ---- 6. random conversion chains (physical and virtual)
@@ -374,6 +618,9 @@ func init() {
 				ctor := pick(r, c20Ctors)
 				nprev := pick(r, []int{0, 1, 2, 7, 300, 65535})
 				v := virtAt(ctor, nprev)
+				if v == nil {
+					continue
+				}
 				cur = v
 				req = c20VasReq(v)
 				resp = append(resp, c20Virt(cur)+":"+c20Bits(cur))
@@ -423,10 +670,20 @@ func init() {
 			ctors := make([]string, l)
 			vs := make([]reg.Virtual, l)
 			perKind := map[reg.Kind][]int{}
+			failed := false
 			for i := range ctors {
 				ctors[i] = pick(r, c20Ctors)
-				vs[i] = c20Alloc(c, ctors[i])
+				v, ok := c20AllocSafe(c, ctors[i])
+				if !ok {
+					allocFail(c20CtorKind(ctors[i]), len(perKind[c20CtorKind(ctors[i])]))
+					failed = true
+					break
+				}
+				vs[i] = v
 				perKind[vs[i].Kind()] = append(perKind[vs[i].Kind()], i)
+			}
+			if failed {
+				continue
 			}
 			emit("coll", fmt.Sprintf("coll %d %s", l, strings.Join(ctors, " ")), c20Ranks(vs))
 			// first colliding pair if any, else sampled pairs; (i, j) are per-kind allocation numbers
@@ -459,20 +716,28 @@ func init() {
 			count int
 		}{{[]string{"GP64"}, 65536}, {[]string{"XMM", "ZMM"}, 65536}, {[]string{"K"}, 65536}, {[]string{"GP64"}, 65537}, {[]string{"XMM", "YMM", "ZMM"}, 65537}, {[]string{"K"}, 65537}, {[]string{"GP8L", "GP8H", "GP16", "GP32"}, 65537}} {
 			c := reg.NewCollection()
-			ids := make([]reg.ID, run.count)
-			var kind reg.Kind
-			for i := range ids {
-				v := c20Alloc(c, run.ctors[i%len(run.ctors)])
-				ids[i], kind = v.ID(), v.Kind()
+			ids := make([]reg.ID, 0, run.count)
+			kind := c20CtorKind(run.ctors[0])
+			for i := 0; i < run.count; i++ {
+				v, ok := c20AllocSafe(c, run.ctors[i%len(run.ctors)])
+				if !ok {
+					// "or fails": refusing the 65537th register of a kind is what a repair of F13 would do
+					allocFail(kind, i)
+					break
+				}
+				ids = append(ids, v.ID())
 			}
-			if run.count <= 65536 { // exact comparison only inside the guard of virt_fresh; beyond it the acceptor speaks (F13)
+			if run.count <= 65536 && len(ids) == run.count { // exact comparison only inside the guard of virt_fresh; beyond it the acceptor speaks (F13)
 				distinct := map[reg.ID]bool{}
 				for _, id := range ids {
 					distinct[id] = true
 				}
 				emit("collrun", fmt.Sprintf("collrun %d %s %d", len(run.ctors), strings.Join(run.ctors, " "), run.count), fmt.Sprintf("distinct=%d", len(distinct)))
 			}
-			seen := make(map[reg.ID]int, run.count)
+			if len(ids) < 2 {
+				continue
+			}
+			seen := make(map[reg.ID]int, len(ids))
 			dup := false
 			for j, id := range ids {
 				if i, ok := seen[id]; ok {
@@ -484,14 +749,31 @@ func init() {
 			}
 			if !dup {
 				for t := 0; t < 8; t++ {
-					i, j := r.intn(run.count), r.intn(run.count)
+					i, j := r.intn(len(ids)), r.intn(len(ids))
 					emit("accept-fresh", fmt.Sprintf("accept-fresh %d %d %d %d %d", uint8(kind), i, j, uint32(ids[i]), uint32(ids[j])), "ok")
 				}
-				emit("accept-fresh", fmt.Sprintf("accept-fresh %d %d %d %d %d", uint8(kind), 0, run.count-1, uint32(ids[0]), uint32(ids[run.count-1])), "ok")
+				emit("accept-fresh", fmt.Sprintf("accept-fresh %d %d %d %d %d", uint8(kind), 0, len(ids)-1, uint32(ids[0]), uint32(ids[len(ids)-1])), "ok")
 			}
 		}
+		// ---- 9. the exported register VARIABLES of package reg (enumerated with go/types, observed through a generated
+		// program built against the current tree; see c20vars.go)
+		vars, err := c20ObserveRegVars(*f.repo, filepath.Dir(*f.ops))
+		if err != nil {
+			return fmt.Errorf("exported register variables: %v", err)
+		}
+		nonPhys := 0
+		for _, v := range vars {
+			// the property speaks of the PHYSICAL registers avo exposes: a (hypothetical) exported variable holding nil or a
+			// virtual register is counted, not judged; the floor on judged variables (c20.py) keeps this from hiding the rest
+			if v.Status == "nil" || v.Status == "nonphysical" {
+				nonPhys++
+				continue
+			}
+			emit("accept-var", c20VarReq(v), "ok")
+		}
+		stats["exported-variable-not-physical(skipped)"] = nonPhys
 		st := map[string]any{"physical_rows": len(all), "single_conversions": conv, "single_conversions_panicking": convPanics,
-			"random_chain_lengths": chainLens, "requests_by_kind": stats}
+			"random_chain_lengths": chainLens, "requests_by_kind": stats, "exported_register_variables": len(vars)}
 		return writeJSON(*f.stats, st)
 	})
 }
@@ -499,7 +781,7 @@ func init() {
 // c20Replay re-runs one request line of a replay / corpus file against the
 // current implementation: the inputs are taken from the line, every output
 // (also the implementation outputs embedded in `accept-` lines) is recomputed.
-func c20Replay(all []reg.Physical, ts []string, emit func(kind, req, resp string)) {
+func c20Replay(all []reg.Physical, repo, dir string, ts []string, emit func(kind, req, resp string)) {
 	if len(ts) == 0 {
 		return
 	}
@@ -528,9 +810,17 @@ func c20Replay(all []reg.Physical, ts []string, emit func(kind, req, resp string
 	virtAt := func(ctor string, nprev int) reg.Virtual {
 		c := reg.NewCollection()
 		for i := 0; i < nprev; i++ {
-			c20Alloc(c, ctor)
+			if _, ok := c20AllocSafe(c, ctor); !ok {
+				emit("accept-alloc-fail", fmt.Sprintf("accept-alloc-fail %d %d", uint8(c20CtorKind(ctor)), i), "ok")
+				return nil
+			}
 		}
-		return c20Alloc(c, ctor)
+		v, ok := c20AllocSafe(c, ctor)
+		if !ok {
+			emit("accept-alloc-fail", fmt.Sprintf("accept-alloc-fail %d %d", uint8(c20CtorKind(ctor)), nprev), "ok")
+			return nil
+		}
+		return v
 	}
 	knownCtor := func(c string) bool {
 		for _, x := range c20Ctors {
@@ -575,24 +865,98 @@ func c20Replay(all []reg.Physical, ts []string, emit func(kind, req, resp string
 		if len(ts) < 5 || arg(2) < 0 || arg(2) > 65535 {
 			return
 		}
-		for _, ctor := range c20Ctors {
-			c := reg.NewCollection()
-			v := c20Alloc(c, ctor)
-			if int(v.Kind()) != arg(1) || int(v.Mask()) != arg(3) {
-				continue
+		if v := c20VirtOf(arg(1), arg(2), arg(3)); v != nil {
+			emit("vas", c20VasReq(v)+" "+strings.Join(ts[4:], " "), strings.Join(append([]string{c20Virt(v) + ":" + c20Bits(v)}, chain(v, true, ts[5:])...), " "))
+		}
+	case "vnew":
+		if arg(1) >= 0 && arg(2) >= 0 && arg(3) >= 0 {
+			func() {
+				defer func() { recover() }()
+				v := reg.NewVirtual(reg.Index(arg(2)), reg.Kind(arg(1)), reg.Spec(arg(3)))
+				emit("vnew", line, c20Virt(v)+":"+c20Bits(v))
+			}()
+		}
+	case "accept-vnew":
+		// accept-vnew <entry> <kind> <spec> <idx|-> …
+		if len(ts) >= 5 && arg(2) >= 0 && arg(3) >= 0 {
+			k, sp, idx := reg.Kind(arg(2)), reg.Spec(arg(3)), arg(4)
+			var get func() reg.Virtual
+			switch ts[1] {
+			case "NewVirtual":
+				get = func() reg.Virtual { return reg.NewVirtual(reg.Index(idx), k, sp) }
+			case "Family.Virtual":
+				if f := reg.FamilyOfKind(k); f != nil {
+					get = func() reg.Virtual { return f.Virtual(reg.Index(idx), sp) }
+				}
+			case "VirtualRegister":
+				get = func() reg.Virtual { return reg.NewCollection().VirtualRegister(k, sp) }
+			case "GP":
+				get = func() reg.Virtual { return reg.NewCollection().GP(sp) }
+			case "Vec":
+				get = func() reg.Virtual { return reg.NewCollection().Vec(sp) }
 			}
-			for n := 0; n < 70000 && int(v.VirtualIndex()) != arg(2); n++ {
-				v = c20Alloc(c, ctor)
+			if get == nil || ((ts[1] == "NewVirtual" || ts[1] == "Family.Virtual") && idx < 0) {
+				return
 			}
-			if int(v.VirtualIndex()) == arg(2) {
-				emit("vas", c20VasReq(v)+" "+strings.Join(ts[4:], " "), strings.Join(append([]string{c20Virt(v) + ":" + c20Bits(v)}, chain(v, true, ts[5:])...), " "))
+			res := "panic"
+			func() {
+				defer func() { recover() }()
+				if v := get(); v != nil {
+					res = fmt.Sprintf("%d %d %d %d", uint32(v.ID()), v.Mask(), v.Size(), uint8(v.Kind()))
+				}
+			}()
+			emit("accept-vnew", fmt.Sprintf("accept-vnew %s %d %d %s %s", ts[1], arg(2), arg(3), ts[4], res), "ok")
+		}
+	case "vlook", "accept-vlook":
+		// vlook <vkind> <vidx> <vmask> <pid>   |   accept-vlook <pkind> <pidx> <pid> <vmask> …
+		var v reg.Virtual
+		var pid reg.ID
+		if ts[0] == "vlook" && arg(4) >= 0 {
+			v, pid = c20VirtOf(arg(1), arg(2), arg(3)), reg.ID(arg(4))
+		} else if ts[0] == "accept-vlook" && arg(3) >= 0 {
+			v, pid = c20VirtOf(int(reg.ID(arg(3)).Kind()), 3, arg(4)), reg.ID(arg(3))
+		}
+		if v == nil {
+			return
+		}
+		for _, p := range all {
+			if p.ID() == pid && p.Kind() != reg.KindPseudo {
+				only := ts[0]
+				c20EmitVlook(func(kind, req, resp string) {
+					if kind == only {
+						emit(kind, req, resp)
+					}
+				}, v, p)
+				break
 			}
-			break
+		}
+	case "accept-lookup-junk":
+		if arg(1) >= 0 && arg(2) >= 0 {
+			emit("accept-lookup-junk", fmt.Sprintf("accept-lookup-junk %d %d %s", arg(1), arg(2), c20LookupResp(reg.LookupID(reg.ID(arg(1)), reg.Spec(arg(2))))), "ok")
+		}
+	case "accept-alloc-fail":
+		// accept-alloc-fail <kind> <n>: does allocation number n of the kind fail now?
+		if ctor, ok := ctorOfKind[arg(1)]; ok && arg(2) >= 0 && arg(2) <= 1<<20 {
+			virtAt(ctor, arg(2)) // emits the line itself when an allocation fails
+		}
+	case "accept-var":
+		if len(ts) >= 2 {
+			vars, err := c20ObserveRegVars(repo, dir)
+			if err != nil {
+				fmt.Fprintln(os.Stderr, "c20 replay: exported register variables:", err)
+				return
+			}
+			for _, v := range vars {
+				if v.Name == ts[1] {
+					emit("accept-var", c20VarReq(v), "ok")
+				}
+			}
 		}
 	case "accept-ctor":
 		if len(ts) >= 2 && knownCtor(ts[1]) {
-			v := virtAt(ts[1], 0)
-			emit("accept-ctor", fmt.Sprintf("accept-ctor %s %d %d %d %d", ts[1], uint8(v.Kind()), v.Mask(), v.Size(), uint32(v.ID())), "ok")
+			if v := virtAt(ts[1], 0); v != nil {
+				emit("accept-ctor", fmt.Sprintf("accept-ctor %s %d %d %d %d", ts[1], uint8(v.Kind()), v.Mask(), v.Size(), uint32(v.ID())), "ok")
+			}
 		}
 	case "coll":
 		c := reg.NewCollection()
@@ -601,7 +965,12 @@ func c20Replay(all []reg.Physical, ts []string, emit func(kind, req, resp string
 			if !knownCtor(ctor) {
 				return
 			}
-			vs = append(vs, c20Alloc(c, ctor))
+			v, ok := c20AllocSafe(c, ctor)
+			if !ok {
+				emit("accept-alloc-fail", fmt.Sprintf("accept-alloc-fail %d %d", uint8(c20CtorKind(ctor)), len(vs)), "ok")
+				return
+			}
+			vs = append(vs, v)
 		}
 		emit("coll", line, c20Ranks(vs))
 	case "collrun":
@@ -622,7 +991,12 @@ func c20Replay(all []reg.Physical, ts []string, emit func(kind, req, resp string
 		c := reg.NewCollection()
 		distinct := map[reg.ID]bool{}
 		for i := 0; i < count; i++ {
-			distinct[c20Alloc(c, ctors[i%nc]).ID()] = true
+			v, ok := c20AllocSafe(c, ctors[i%nc])
+			if !ok {
+				emit("accept-alloc-fail", fmt.Sprintf("accept-alloc-fail %d %d", uint8(c20CtorKind(ctors[0])), i), "ok")
+				return
+			}
+			distinct[v.ID()] = true
 		}
 		emit("collrun", line, fmt.Sprintf("distinct=%d", len(distinct)))
 	case "lookupid":
@@ -686,6 +1060,9 @@ func c20Replay(all []reg.Physical, ts []string, emit func(kind, req, resp string
 			id := reg.ID(arg(1))
 			if ctor, ok := ctorOfKind[int(id.Kind())]; ok {
 				v := virtAt(ctor, int(id.Index()))
+				if v == nil {
+					return
+				}
 				res, avail, panicked := c20Call(v, ts[2])
 				if avail {
 					emit("accept-vas", fmt.Sprintf("accept-vas %d %s %s", uint32(v.ID()), ts[2], c20Res(res, panicked)), "ok")
@@ -699,7 +1076,11 @@ func c20Replay(all []reg.Physical, ts []string, emit func(kind, req, resp string
 			c := reg.NewCollection()
 			var a, b reg.ID
 			for n := 0; n <= i || n <= j; n++ {
-				v := c20Alloc(c, ctor)
+				v, ok := c20AllocSafe(c, ctor)
+				if !ok {
+					emit("accept-alloc-fail", fmt.Sprintf("accept-alloc-fail %d %d", arg(1), n), "ok")
+					return
+				}
 				if n == i {
 					a = v.ID()
 				}
@@ -738,7 +1119,7 @@ func c20Replay(all []reg.Physical, ts []string, emit func(kind, req, resp string
 	case "accept-vclass":
 		for _, ctor := range c20Ctors {
 			v := virtAt(ctor, 0)
-			if int(v.Kind()) == arg(1) && int(v.Mask()) == arg(2) {
+			if v != nil && int(v.Kind()) == arg(1) && int(v.Mask()) == arg(2) {
 				emit("accept-vclass", fmt.Sprintf("accept-vclass %d %d %s", uint8(v.Kind()), v.Mask(), c20Bits(v)), "ok")
 				break
 			}
